@@ -16,6 +16,7 @@ import (
 	"runtime/debug"
 	"sort"
 	"sync"
+	"sync/atomic"
 	"time"
 
 	"github.com/influxdata/influxdb/pkg/limiter"
@@ -50,6 +51,8 @@ func verifEngineOptions() EngineOptions {
 }
 
 var verifLimitersOnce sync.Once
+var verifClock uint64
+var verifSeq = uint64(time.Now().Unix())
 
 // VerifShard is a shard opened by the harness.
 type VerifShard struct {
@@ -73,7 +76,9 @@ func VerifOpenShard(dir string, walParts int) (v *VerifShard, err error) {
 	indexPath := filepath.Join(dir, db, "index", "data")
 	ident := &meta.IndexIdentifier{OwnerDb: db, OwnerPt: 1, Policy: rp}
 	ident.Index = &meta.IndexDescriptor{IndexID: 1, IndexGroupID: 2, TimeRange: meta.TimeRangeInfo{}}
-	ltime := uint64(time.Now().Unix())
+	// every open counts as a process start of a deployment that keeps a logical-clock file:
+	// series ids issued by different opens never share the clock prefix.
+	clock := atomic.AddUint64(&verifClock, 1)
 	opts := new(tsi.Options).
 		Ident(ident).
 		Path(indexPath).
@@ -82,8 +87,8 @@ func VerifOpenShard(dir string, walParts int) (v *VerifShard, err error) {
 		StartTime(time.Now()).
 		EndTime(time.Now().Add(time.Hour)).
 		Duration(time.Hour).
-		LogicalClock(1).
-		SequenceId(&ltime).
+		LogicalClock(clock).
+		SequenceId(&verifSeq).
 		Lock(&lockPath)
 	ib := tsi.NewIndexBuilder(opts)
 	primary, err := tsi.NewIndex(opts)
